@@ -1,17 +1,36 @@
 // C06 - event results are reproducible and independent of history and thread order.
 //
 // Explicit-state search over HISTORIES of one Stepper: alphabet
-//   E<e>   reseed(e) and transport event e to completion            (e in {0,1,2})
-//   A<e><k> reseed(e), transport event e for k steps, abandon it and reset_state() (k in {1,3})
-//   W      warm_up()
+//   E<e>      reseed(e) and transport event e to completion                     (e in {0,1,2})
+//   A<e>.<k>  reseed(e), transport event e for k Stepper calls, abandon it between two calls
+//             and reset_state()                                     (e in {0,2}, k in {1,3})
+//   X<e>.<n>.<where>  event e is ABORTED BY AN EXCEPTION in the middle of a step, then
+//             reset_state():  where = post : a user action (StepActionOrder::user_post) throws at
+//             its n-th invocation (slots are killed / carry pending secondaries at that point),
+//             where = start: the same at user_start (slots are `initializing`),
+//             where = int  : the n-th interaction of the event throws inside the interaction
+//             kernel (some slots have interacted, others not)
+//             letters: X0.2.post, X2.4.post, X2.2.start, X0.2.int
+//   V         reseed(0), a Stepper call whose primaries carry the invalid event id max_events
+//             (rejected with an exception), reset_state()
+//   W         warm_up() (first letter only)
 // All histories up to depth D are executed; every completed event in every history must give
-// a per-track step history that is bit-identical to the same event on a FRESH state with the
-// same number of track slots and TrackOrder::none.  Configuration lattice: re-indexing track
-// order {none + the 6 re-indexing orders} x action_times {off,on} x StatusChecker {off,on} x
-// slots {2,8} x along-step {linear+fluct, field+fluct}.
+//   (1) a per-track step history,
+//   (2) a StepperResult sequence (generated, active, alive, queued of every Stepper call),
+//   (3) tallies (SimpleCalo energy per detector, ActionDiagnostic and StepDiagnostic counts,
+//       cleared before the event)
+// that are bit-identical to the same event on a FRESH state with the same number of track slots
+// and TrackOrder::none, no timing, no status checker.
+// Configuration lattice: re-indexing track order {none + the 6 re-indexing orders} x
+// action_times {off,on} x StatusChecker {off,on} x slots {1,2,8} x along-step {linear+msc+fluct,
+// field+msc+fluct} x geometry {g1 box-in-box (one universe), g3 rotated daughter universe (two
+// levels; primaries start in the daughter's sphere and cylinder and in a world-level ball)}.
+// With a field every event has a 4th primary: a 0.2 MeV e- in the vacuum world perpendicular to
+// B, whose FIRST step is already a looping step (stale looping counters of the slot's previous
+// occupant become observable).
 // The interaction outcomes are a fixed deterministic function of (event, track, step,
 // particle, energy), so the only history-dependent inputs are the ones under test: the RNG
-// streams and whatever state survives in the slots.
+// streams and whatever state survives in the slots / counters / auxiliary data.
 #include <algorithm>
 
 #include "harness/loop_explore.hh"
@@ -19,10 +38,23 @@
 using namespace celeritas;
 using namespace vf;
 
+struct AbortInteraction : std::runtime_error
+{
+    AbortInteraction() : std::runtime_error("verif: interaction aborts the event") {}
+};
+
 struct HashChooser : LoopChooser
 {
+    unsigned throw_at{0};  // throw at the throw_at-th interaction (0: never)
+    unsigned calls{0};
+    bool fired{false};
     int choose(int n, InteractionQuery const& q) override
     {
+        if (throw_at && ++calls == throw_at)
+        {
+            fired = true;
+            throw AbortInteraction{};
+        }
         uint64_t h = hash_pod(q.event);
         h = hash_mix(h, q.track);
         h = hash_mix(h, q.step);
@@ -33,15 +65,55 @@ struct HashChooser : LoopChooser
     }
 };
 
-static std::vector<Primary> event_primaries(LoopProblem const& P, unsigned e)
+static std::array<double, 3> unit(std::array<double, 3> v)
+{
+    double n = std::sqrt(v[0] * v[0] + v[1] * v[1] + v[2] * v[2]);
+    return {v[0] / n, v[1] / n, v[2] / n};
+}
+
+static unsigned const looper_track = 3;  // the 4th primary
+
+static std::vector<Primary> event_primaries(LoopProblem const& P, unsigned e, unsigned event_id)
 {
     std::vector<Primary> v;
     double const s = 0.03 * e;
-    v.push_back(P.primary(0, 20.0 + e, {0.2 + s, 0.1, 0.05}, {1, 0, 0}, e));
-    v.push_back(P.primary(1, 8.0, {0.1, -0.2 + s, 0.3}, {0, 0.6, 0.8}, e));
-    v.push_back(P.primary(2, 3.0 + e, {-0.2, 0.3, -0.1 - s}, {0.6, 0, -0.8}, e));
+    if (P.cfg.geometry == 1)
+    {
+        // all three inside "inner" (material)
+        v.push_back(P.primary(0, 20.0 + e, {0.2 + s, 0.1, 0.05}, {1, 0, 0}, event_id));
+        v.push_back(P.primary(1, 8.0, {0.1, -0.2 + s, 0.3}, {0, 0.6, 0.8}, event_id));
+        v.push_back(P.primary(2, 3.0 + e, {-0.2, 0.3, -0.1 - s}, {0.6, 0, -0.8}, event_id));
+    }
+    else
+    {
+        // g3 variant 1: daughter "d" rotated by 30 deg about z and translated by
+        // (0.5,-0.75,0.25); global centres: d:sph (-0.2745,-0.9085,0.25) r 0.5,
+        // d:cyl (1.2062,-0.5732,0.35) r 0.4 half-height 0.6; world-level "ball" (-3,3,-2.5) r 0.8
+        v.push_back(P.primary(0, 20.0 + e, {-0.2745 + s, -0.9085, 0.25},
+                              unit({1.4807, 0.3353, 0.1}), event_id));  // sphere -> cylinder
+        v.push_back(P.primary(1, 8.0, {1.2062 + 0.05, -0.5732 + s, 0.35 + 0.1}, {0, 0.6, 0.8},
+                              event_id));
+        v.push_back(P.primary(2, 3.0 + e, {-2.9, 3.0, -2.5 - s}, unit({3.4, -3.75, 2.75}),
+                              event_id));  // ball (level 0) -> daughter
+    }
+    if (has_field(P.cfg.along))
+    {
+        // looper: gyroradius 0.165 cm in 1 T, no motion along B, hard vacuum (no physics)
+        v.push_back(P.primary(1, 0.2, {-3.0, -3.0 + s, 0.0}, {1, 0, 0}, event_id));
+    }
     return v;
 }
+
+// what is compared between a test event and its fresh-state reference
+struct EventObs
+{
+    uint64_t tracks{0};  // canonical per-track hash of the step stream
+    uint64_t results{0};  // StepperResult sequence
+    uint64_t calo{0}, actions{0}, steps{0};  // tallies
+    size_t nrec{0}, ncalls{0};
+    int looper_steps{-1};  // number of steps of the looper primary (field configs)
+    std::string looper_last_action;
+};
 
 // canonical per-track hash of a step stream (order of delivery within a step is irrelevant)
 static uint64_t per_track_hash(std::vector<StepRec> recs, std::map<int, std::string> const& labels)
@@ -73,12 +145,20 @@ static uint64_t per_track_hash(std::vector<StepRec> recs, std::map<int, std::str
 
 struct Op
 {
-    char kind;  // 'E', 'A', 'W'
+    char kind;  // 'E', 'A', 'W', 'X', 'V'
     unsigned event;
-    unsigned steps;
+    unsigned steps;  // A: Stepper calls; X: n
+    char const* where;  // X: "post" | "start" | "int"
     std::string str() const
     {
-        return kind == 'W' ? "W" : kind == 'E' ? fmt("E%u", event) : fmt("A%u.%u", event, steps);
+        switch (kind)
+        {
+            case 'W': return "W";
+            case 'V': return "V";
+            case 'E': return fmt("E%u", event);
+            case 'A': return fmt("A%u.%u", event, steps);
+            default: return fmt("X%u.%u.%s", event, steps, where);
+        }
     }
 };
 
@@ -89,25 +169,63 @@ struct CfgCase
     bool times, checker;
     unsigned slots;
     AlongStep along;
+    int geometry;
 };
 
-// run one event to completion (or for max_steps) on an existing stepper
+static void clear_tallies(LoopProblem& P)
+{
+    if (P.calo)
+        P.calo->clear();
+    if (P.action_diag)
+        P.action_diag->clear();
+    if (P.step_diag)
+        P.step_diag->clear();
+}
+
+// run one event to completion (or for max_steps Stepper calls) on an existing stepper
+// abort: nullptr, or the X operation to arm
 static bool run_on(LoopProblem& P, Stepper<MemSpace::host>& st, unsigned e, unsigned max_steps,
-                   uint64_t* hash, std::string* err)
+                   EventObs* obs, std::string* err, Op const* abort = nullptr,
+                   bool* abort_fired = nullptr)
 {
     P.recorder->steps.clear();
     HashChooser ch;
     g_loop_chooser = &ch;
     bool done = false;
+    uint64_t rh = 1469598103934665603ull;
+    size_t ncalls = 0;
+    auto push = [&](StepperResult const& r) {
+        rh = hash_mix(rh, hash_pod(r.generated));
+        rh = hash_mix(rh, hash_pod(r.active));
+        rh = hash_mix(rh, hash_pod(r.alive));
+        rh = hash_mix(rh, hash_pod(r.queued));
+        ++ncalls;
+    };
+    if (abort)
+    {
+        std::string w = abort->where;
+        if (w == "int")
+            ch.throw_at = abort->steps;
+        else
+        {
+            P.throw_ctl->armed_order
+                = int(w == "post" ? StepActionOrder::user_post : StepActionOrder::user_start);
+            P.throw_ctl->countdown = abort->steps;
+        }
+    }
+    unsigned long long fired0 = P.throw_ctl ? P.throw_ctl->fired : 0;
     try
     {
+        clear_tallies(P);
         st.reseed(UniqueEventId{e});
-        auto prim = event_primaries(P, e);
+        auto prim = event_primaries(P, e, e);
         StepperResult r = st(make_span(prim));
+        push(r);
         unsigned n = 1;
         while (r && n < max_steps)
         {
             r = st();
+            push(r);
             ++n;
         }
         done = !r;
@@ -116,9 +234,52 @@ static bool run_on(LoopProblem& P, Stepper<MemSpace::host>& st, unsigned e, unsi
     {
         *err = ex.what();
     }
+    if (P.throw_ctl)
+    {
+        if (abort_fired)
+            *abort_fired = ch.fired || P.throw_ctl->fired != fired0;
+        P.throw_ctl->armed_order = -1;
+        P.throw_ctl->countdown = 0;
+    }
     g_loop_chooser = nullptr;
-    if (hash)
-        *hash = per_track_hash(P.recorder->steps, P.action_labels);
+    if (obs)
+    {
+        auto const& recs = P.recorder->steps;
+        obs->tracks = per_track_hash(recs, P.action_labels);
+        obs->results = rh;
+        obs->nrec = recs.size();
+        obs->ncalls = ncalls;
+        if (has_field(P.cfg.along))
+        {
+            unsigned best = 0;
+            for (auto const& r : recs)
+                if (r.track == looper_track && r.step_count >= best)
+                {
+                    best = r.step_count;
+                    obs->looper_steps = int(r.step_count);
+                    obs->looper_last_action = P.action_labels.at(r.action);
+                }
+        }
+        // tallies (exact: the calorimeter accumulates per detector in slot order, the
+        // diagnostics are integer counts)
+        uint64_t h = 1469598103934665603ull;
+        for (double x : P.calo->calc_total_energy_deposition())
+            h = hash_mix(h, hash_pod(x));
+        obs->calo = h;
+        h = 1469598103934665603ull;
+        for (auto const& kv : P.action_diag->calc_actions_map())
+            if (kv.second)
+                h = hash_mix(hash_mix(h, hash_str(kv.first)), uint64_t(kv.second));
+        obs->actions = h;
+        h = 1469598103934665603ull;
+        for (auto const& row : P.step_diag->calc_steps())
+        {
+            h = hash_mix(h, 0x9e37u);
+            for (auto c : row)
+                h = hash_mix(h, uint64_t(c));
+        }
+        obs->steps = h;
+    }
     return done;
 }
 
@@ -138,25 +299,37 @@ int main(int argc, char** argv)
     for (auto o : orders)
         for (bool times : {false, true})
             for (bool chk : {false, true})
-                for (unsigned s : {2u, 8u})
+                for (unsigned s : {1u, 2u, 8u})
                     for (auto a : {AlongStep::linear_msc_fluct, AlongStep::field_msc_fluct})
-                    {
-                        if (!thorough && (times != chk))
-                            continue;  // quick: (off,off) and (on,on)
-                        if (!thorough && a == AlongStep::linear_msc_fluct && s == 8)
-                            continue;
-                        cfgs.push_back({fmt("o%d.t%d.c%d.s%u.%s", int(o), int(times), int(chk), s,
-                                            along_name(a)),
-                                        o, times, chk, s, a});
-                    }
+                        for (int g : {1, 3})
+                        {
+                            if (!thorough)
+                            {
+                                if (times != chk)
+                                    continue;  // quick: (off,off) and (on,on)
+                                // quick: (field, g1, slots 1|2|8), (linear, g1, slots 2),
+                                // (linear, g3, slots 2), (field, g3, slots 2)
+                                bool keep = (has_field(a) && g == 1) || s == 2;
+                                if (!keep)
+                                    continue;
+                            }
+                            cfgs.push_back({fmt("o%d.t%d.c%d.s%u.%s.g%d", int(o), int(times),
+                                                int(chk), s, along_name(a), g),
+                                            o, times, chk, s, a, g});
+                        }
     // alphabet
     std::vector<Op> alphabet;
     for (unsigned e : {0u, 1u, 2u})
-        alphabet.push_back({'E', e, 0});
+        alphabet.push_back({'E', e, 0, ""});
     for (unsigned e : {0u, 2u})
         for (unsigned k : {1u, 3u})
-            alphabet.push_back({'A', e, k});
-    alphabet.push_back({'W', 0, 0});
+            alphabet.push_back({'A', e, k, ""});
+    alphabet.push_back({'W', 0, 0, ""});
+    alphabet.push_back({'X', 0, 2, "post"});
+    alphabet.push_back({'X', 2, 4, "post"});
+    alphabet.push_back({'X', 2, 2, "start"});
+    alphabet.push_back({'X', 0, 2, "int"});
+    alphabet.push_back({'V', 0, 0, ""});
 
     uint64_t outer = 0;
     for (auto const& cc : cfgs)
@@ -169,7 +342,8 @@ int main(int argc, char** argv)
             continue;
         auto make = [&](TrackOrder o, bool checker) {
             LoopConfig cfg;
-            cfg.geometry = 1;
+            cfg.geometry = cc.geometry;
+            cfg.geo_variant = 1;
             cfg.along = cc.along;
             cfg.slots = cc.slots;
             cfg.track_order = o;
@@ -177,26 +351,45 @@ int main(int argc, char** argv)
             cfg.xs_gamma = 2.0;
             cfg.xs_electron = 3.0;
             cfg.max_events = 8;
+            cfg.throwers = {StepActionOrder::user_start, StepActionOrder::user_post};
+            // the real SimpleCalo over every volume, fed with the recorder's step state
+            cfg.calo_volumes = {"*"};
+            cfg.calo_tee = true;
+            cfg.action_diagnostic = true;
+            cfg.step_diagnostic = true;
             return make_loop_problem(cfg);
         };
         // reference: fresh state, TrackOrder::none, no timing, no checker
         auto Pref = make(TrackOrder::none, false);
-        uint64_t ref[3];
+        EventObs ref[3];
         for (unsigned e = 0; e < 3; ++e)
         {
             auto st = Pref->make_stepper();
             std::string err;
             if (!run_on(*Pref, *st, e, 100000, &ref[e], &err))
                 R.harness_error("reference event does not complete: " + err);
-            R.maxi("max_steps_per_event", Pref->recorder->steps.size());
+            R.maxi("max_steps_per_event", ref[e].nrec);
+            R.maxi("max_stepper_calls_per_event", ref[e].ncalls);
+            if (has_field(cc.along))
+            {
+                // the looper must really be a looper from its first step on (otherwise the
+                // "stale looping counter" state is not exercised): it is killed by the
+                // tracking cut after exactly max_subthreshold_steps looping steps
+                R.tag(fmt("looper:last-action=%s:steps=%d", ref[e].looper_last_action.c_str(),
+                          ref[e].looper_steps));
+                if (ref[e].looper_last_action == "tracking-cut")
+                    R.tag("looping-seen");
+            }
         }
         // the reference itself must be reproducible
         {
             auto st = Pref->make_stepper();
-            uint64_t again;
+            EventObs again;
             std::string err;
             run_on(*Pref, *st, 1, 100000, &again, &err);
-            if (again != ref[1])
+            if (again.tracks != ref[1].tracks || again.results != ref[1].results
+                || again.calo != ref[1].calo || again.actions != ref[1].actions
+                || again.steps != ref[1].steps)
                 R.harness_error("fresh-state reference is not deterministic");
         }
         auto P = make(cc.order, cc.checker);
@@ -240,7 +433,7 @@ int main(int argc, char** argv)
                     ops.push_back(alphabet[h[i]]);
                 else
                     for (unsigned e : {0u, 1u, 2u})
-                        ops.push_back({'E', e, 0});
+                        ops.push_back({'E', e, 0, ""});
                 for (auto const& op : ops)
                 {
                     R.count("transitions");
@@ -280,8 +473,78 @@ int main(int argc, char** argv)
                         }
                         continue;
                     }
-                    uint64_t hh = 0;
-                    bool done = run_on(*P, *st, op.event, 100000, &hh, &err);
+                    if (op.kind == 'X')
+                    {
+                        bool fired = false;
+                        bool done = run_on(*P, *st, op.event, 100000, nullptr, &err, &op, &fired);
+                        // the event may end before the n-th invocation: then nothing was
+                        // aborted and the reset follows a complete event (legal, harmless)
+                        R.tag(fired ? fmt("abort-by-exception:%s", op.where)
+                                    : "abort-point-not-reached");
+                        if (!fired && (!done || !err.empty()))
+                        {
+                            R.violation("repro:event-does-not-complete", cid,
+                                        fmt("%s: event %u (abort point not reached) after history "
+                                            "[%s]: %s",
+                                            cc.id.c_str(), op.event, hid.c_str(), err.c_str()));
+                            ok = false;
+                            break;
+                        }
+                        err.clear();
+                        try
+                        {
+                            st->reset_state();
+                        }
+                        catch (std::exception const& e)
+                        {
+                            err = e.what();
+                        }
+                        if (!err.empty())
+                        {
+                            R.violation("repro:reset-after-exception-failed", cid, err);
+                            ok = false;
+                        }
+                        continue;
+                    }
+                    if (op.kind == 'V')
+                    {
+                        bool threw = false;
+                        try
+                        {
+                            st->reseed(UniqueEventId{0});
+                            auto prim = event_primaries(*P, 0, P->cfg.max_events);
+                            (*st)(make_span(prim));
+                        }
+                        catch (std::exception const&)
+                        {
+                            threw = true;
+                        }
+                        if (!threw)
+                        {
+                            // accepting the id would write past the per-event counters; not this
+                            // property's business, but the history is meaningless then
+                            R.tag("invalid-event-id-not-rejected");
+                            ok = false;
+                            break;
+                        }
+                        R.tag("abort-by-exception:invalid-event-id");
+                        try
+                        {
+                            st->reset_state();
+                        }
+                        catch (std::exception const& e)
+                        {
+                            err = e.what();
+                        }
+                        if (!err.empty())
+                        {
+                            R.violation("repro:reset-after-exception-failed", cid, err);
+                            ok = false;
+                        }
+                        continue;
+                    }
+                    EventObs got;
+                    bool done = run_on(*P, *st, op.event, 100000, &got, &err);
                     R.count("events_compared");
                     if (!done || !err.empty())
                     {
@@ -291,18 +554,46 @@ int main(int argc, char** argv)
                         ok = false;
                         break;
                     }
-                    if (hh != ref[op.event])
-                    {
-                        std::string sig = "repro:event-differs-from-fresh-state";
-                        if (h.empty() && i == h.size() && op.event == 0)
-                            sig = "repro:first-event-differs-from-reference-configuration";
+                    EventObs const& want = ref[op.event];
+                    bool const first = h.empty() && i == h.size() && op.event == 0;
+                    auto report = [&](char const* what_sig, char const* what_txt) {
+                        std::string sig = first ? fmt("repro:first-%s-differs-from-reference-"
+                                                      "configuration",
+                                                      what_sig)
+                                                : fmt("repro:%s-differs-from-fresh-state", what_sig);
                         R.violation(fmt("%s[order=%d]", sig.c_str(), int(cc.order)), cid,
                                     fmt("%s: event %u transported after history [%s] (position %zu) "
-                                        "has a different per-track step history than on a fresh "
-                                        "state with TrackOrder::none (%zu steps recorded)",
-                                        cc.id.c_str(), op.event, hid.c_str(), i,
-                                        P->recorder->steps.size()));
+                                        "has a different %s than on a fresh state with "
+                                        "TrackOrder::none (%zu steps recorded in %zu Stepper calls; "
+                                        "reference %zu in %zu)",
+                                        cc.id.c_str(), op.event, hid.c_str(), i, what_txt, got.nrec,
+                                        got.ncalls, want.nrec, want.ncalls));
                         ok = false;
+                    };
+                    if (got.tracks != want.tracks)
+                    {
+                        report("event", "per-track step history");
+                        break;
+                    }
+                    if (got.results != want.results)
+                    {
+                        report("stepper-result-sequence",
+                               "StepperResult sequence (generated, active, alive, queued)");
+                        break;
+                    }
+                    if (got.calo != want.calo)
+                    {
+                        report("calorimeter-tally", "SimpleCalo energy deposition");
+                        break;
+                    }
+                    if (got.actions != want.actions)
+                    {
+                        report("action-diagnostic-tally", "ActionDiagnostic count table");
+                        break;
+                    }
+                    if (got.steps != want.steps)
+                    {
+                        report("step-diagnostic-tally", "StepDiagnostic count table");
                         break;
                     }
                 }
@@ -314,8 +605,10 @@ int main(int argc, char** argv)
             R.end_case();
         }
     }
-    R.sample("o3.t1.c1.s2.fieldfluct|A2.3,E1 = reindex_particle_type + action timing + status "
-             "checker, 2 slots: abandon event 2 after 3 steps, reset, run event 1, then probe events "
-             "0,1,2: each must equal its fresh-state history");
+    R.sample("o3.t1.c1.s2.fieldmscfluct.g1|X2.4.post,E1 = reindex_particle_type + action timing + "
+             "status checker, 2 slots, field, box-in-box: event 2 is aborted by a user action "
+             "throwing at its 4th user_post invocation, reset_state(), run event 1, then probe "
+             "events 0,1,2: each must equal its fresh-state step history, StepperResult sequence "
+             "and tallies");
     return R.finish();
 }
